@@ -425,26 +425,54 @@ def expected_factor_value(n_self, n_other, conv_self, conv_other):
 
 
 # ---- Compound::mul ---------------------------------------------------------------------------------------------
+def reconstruct_name(facts):
+    """The function that re-derives units in a product: by name, else by role - the local function Compound::mul calls that
+    itself calls bases_match (it may have been lifted out of mul and given another interface)."""
+    if facts.fn("compound::Compound::mul::reconstruct") is not None:
+        return "compound::Compound::mul::reconstruct"
+    cached = facts.__dict__.get("_reconstruct_name", "?")
+    if cached != "?":
+        return cached
+    facts._reconstruct_name = None
+    mul = facts.fn("compound::Compound::mul")
+    if mul is not None:
+        for blk, t, sp, nm in mul.calls():
+            cb = facts.fn(nm)
+            if cb is not None and any(n2.endswith("bases_match") for b2, t2, sp2, n2 in cb.calls()):
+                facts._reconstruct_name = nm
+                break
+    return facts._reconstruct_name
+
+
 def mul_summary(facts, ea, eb):
     """Summary of Compound::mul for an emptiness class.  For (non-empty, non-empty) reconstruct is opaque."""
     body = facts.fn("compound::Compound::mul")
     if body is None:
         return None
+    RECON = reconstruct_name(facts)
 
     def extra(dom, it, name, args, vals, store):
         if name == "compound::Compound::base_units":
             nm = E.unit_sym(vals[0])
             return [(Agg("tuple", None, None, None, (Sym("derived(%r)" % nm), Sym("bases(%r)" % nm))), store)]
-        if name == "compound::Compound::mul::reconstruct":
+        if name == RECON:
             # arguments by what they are, not by position: the units to re-derive (an iterator term over derived(..)), the
             # value they are shed from (a reference to one operand's value), the power with which that value enters the
-            # combined result (when the function is told), the map
-            der = next((v for v in vals if "derived(" in repr(v)), vals[0] if vals else None)
+            # combined result (when the function is told), the map - possibly bundled in a small struct
+            flat_a, flat_v = [], []
+            for a_, v_ in zip(args, vals):
+                if isinstance(v_, Agg) and v_.kind == "adt" and v_.path not in ("compound::Compound",) and len(v_.fields) <= 4 and not isinstance(a_, Ref):
+                    flat_a.extend(v_.fields)
+                    flat_v.extend(it.read_ref(store, f_) if isinstance(f_, Ref) else f_ for f_ in v_.fields)
+                else:
+                    flat_a.append(a_)
+                    flat_v.append(v_)
+            der = next((v for v in flat_v if "derived(" in repr(v)), flat_v[0] if flat_v else None)
             out = None
-            for a_ in args:
+            for a_ in flat_a:
                 if isinstance(a_, Ref) and a_.frame == 0 and a_.local in (2, 3) and not a_.proj:
                     out = "lhs" if a_.local == 2 else "rhs"
-            side = next((v for v in vals if v == Sym("n") or (isinstance(v, Const) and isinstance(v.v, int) and not isinstance(v.v, bool))), None)
+            side = next((v for v in flat_v if v == Sym("n") or (isinstance(v, Const) and isinstance(v.v, int) and not isinstance(v.v, bool))), None)
             return [(ok(UNIT), dom.with_log(store, ("reconstruct", der, out, side))),
                     (compound_err(), dom.with_log(store, ("fail", "reconstruct")))]
         if name == "compound::Compound::new":
@@ -502,16 +530,25 @@ def closure_summary(facts, path, env_fields, arg):
 
 
 def reconstruct_summary(facts, n_items=1):
-    body = facts.fn("compound::Compound::mul::reconstruct")
+    body = facts.fn(reconstruct_name(facts) or "compound::Compound::mul::reconstruct")
     if body is None:
         return None
+    # the arity of the items of `der`: (unit, power, n) triples, or (unit, power) pairs when the operand's side is handed over
+    # separately
+    import re as _re
+    arity = 3
+    for i_ in range(1, body.arg_count + 1):
+        m_ = _re.search(r"\((unit::Unit(?:,\s*i32)+)\)", body.local_ty(i_))
+        if m_:
+            arity = m_.group(1).count(",") + 1
 
     def extra(dom, it, name, args, vals, store):
-        if name == "std::iter::IntoIterator::into_iter" and isinstance(vals[0], Sym) and vals[0].name == "der":
+        if (name == "std::iter::IntoIterator::into_iter" or name.endswith("IntoIterator>::into_iter") or
+                ("IntoIterator for " in name and name.endswith("::into_iter"))) and isinstance(vals[0], Sym) and vals[0].name == "der":
             if n_items == 1:
-                items = [Agg("tuple", None, None, None, (Sym("unit"), Sym("power"), Sym("n")))]
+                items = [Agg("tuple", None, None, None, (Sym("unit"), Sym("power"), Sym("n"))[:arity])]
             else:
-                items = [Agg("tuple", None, None, None, (Sym("unit%d" % i), Sym("power%d" % i), Sym("n%d" % i))) for i in range(n_items)]
+                items = [Agg("tuple", None, None, None, (Sym("unit%d" % i), Sym("power%d" % i), Sym("n%d" % i))[:arity]) for i in range(n_items)]
             return [(IterV(items), store)]
         if name == "<powers::Powers as std::default::Default>::default":
             return [(Sym("powers"), dom.with_log(store, ("scratch-fresh",)) if n_items > 1 else store)]
@@ -543,6 +580,13 @@ def reconstruct_summary(facts, n_items=1):
             argv.append(Ref(0, 1))
         elif ty_ in ("i32", "i64", "isize"):
             argv.append(Sym("side"))  # the power with which `out` enters the combined value
+        elif facts.adt(ty_.split("<")[0]) is not None and not ty_.startswith("std::"):
+            # a small struct bundling the value and its side
+            ad_ = facts.adt(ty_.split("<")[0])
+            fs_ = []
+            for f_ in ad_["variants"][0]["fields"]:
+                fs_.append(Ref(0, 0) if "Rational" in f_["ty"] else (Sym("side") if f_["ty"] in ("i32", "i64", "isize") else Sym("operand." + f_["name"])))
+            argv.append(Agg("adt", ad_["path"], 0, ad_["variants"][0]["name"], tuple(fs_)))
         else:
             argv.append(Sym("der"))
     outs = it.run(body, argv, store)
